@@ -266,8 +266,14 @@ fn gen_pb_body(rng: &mut Rng, depth: u32) -> Vec<u8> {
                 let pad = if rng.chance(1, 6) { rng.usize(1, 9) } else { 0 };
                 varint(gen_u64(rng), pad, &mut out)
             }
-            1 => out.extend(rng.bytes(if rng.chance(1, 8) { rng.usize(0, 7) } else { 8 })),
-            5 => out.extend(rng.bytes(if rng.chance(1, 8) { rng.usize(0, 3) } else { 4 })),
+            1 => {
+                let n = if rng.chance(1, 8) { rng.usize(0, 7) } else { 8 };
+                out.extend(rng.bytes(n))
+            }
+            5 => {
+                let n = if rng.chance(1, 8) { rng.usize(0, 3) } else { 4 };
+                out.extend(rng.bytes(n))
+            }
             2 => {
                 let n = rng.usize(0, 20);
                 let claimed = if rng.chance(1, 8) { n as u64 + rng.range(1, 5) } else { n as u64 };
@@ -437,13 +443,22 @@ impl Prop for C30 {
         // raw streams
         for _ in 0..rounds * 120 {
             let body = match rng.below(6) {
-                0 => rng.bytes(rng.below(30) as usize),
+                0 => {
+                    let n = rng.below(30) as usize;
+                    rng.bytes(n)
+                }
                 _ => gen_pb_body(rng, 3),
             };
             let mut s = if rng.chance(5, 6) { frame(&body) } else { body.clone() };
             if rng.chance(1, 4) {
                 // second frame / trailing bytes
-                s.extend(if rng.bool() { frame(&gen_pb_body(rng, 2)) } else { rng.bytes(rng.usize(1, 5)) });
+                let extra = if rng.bool() {
+                    frame(&gen_pb_body(rng, 2))
+                } else {
+                    let n = rng.usize(1, 5);
+                    rng.bytes(n)
+                };
+                s.extend(extra);
             }
             if rng.chance(1, 5) && !s.is_empty() {
                 let i = rng.usize(0, s.len() - 1);
@@ -464,7 +479,8 @@ impl Prop for C30 {
             let (mut s, which) = if rng.bool() {
                 (prost::Message::encode_length_delimited_to_vec(&gen_req(rng)), "rawreq")
             } else {
-                let items = gen_items(rng, rng.usize(1, 3), true);
+                let n = rng.usize(1, 3);
+                let items = gen_items(rng, n, true);
                 let mut w = vec![];
                 for r in parse_items(&items).unwrap() {
                     w.extend(prost::Message::encode_length_delimited_to_vec(&r));
@@ -484,7 +500,10 @@ impl Prop for C30 {
                     let i = rng.usize(0, s.len());
                     s.insert(i, rng.byte());
                 }
-                _ => s.extend(rng.bytes(rng.usize(1, 4))),
+                _ => {
+                    let n = rng.usize(1, 4);
+                    s.extend(rng.bytes(n))
+                }
             }
             out.op(format!("{which} data={} cuts={}", hx(&s), natl(&gen_cuts(rng, s.len()))), &format!("{which}/mutated-valid"), true);
         }
